@@ -36,8 +36,11 @@ def plan(tier, seed):
     for r in range(n):
         cases.append(dict(lane='matrix', K=int(rng.integers(1, 7)), lead=pick([[], [4]]), dtype=pick(['float', 'int', 'ties']), rs=[seed, 17, i])); i += 1
     for r in range(n):
-        cases.append(dict(lane='field', K=int(rng.integers(1, 7)), F=int(pick([1, 3, 5, 9, 33, 65])), T=int(rng.integers(2, 40)), metric=pick(METRICS), alg=pick(['greedy', 'optimal']),
-                          ref=pick(['onehot-ish', 'continuous', 'soft']), rs=[seed, 18, i])); i += 1
+        refk = pick(['onehot-ish', 'continuous', 'soft', 'similar', 'int8-binary', 'bool-binary'])
+        cases.append(dict(lane='field', K=int(rng.integers(1, 7)), F=int(pick([1, 3, 5, 9, 33, 65])), T=int(rng.integers(2, 40)) if 'binary' not in refk else int(pick([60, 400, 1000])),
+                          metric=pick(METRICS) if 'binary' not in refk else ('cos' if refk == 'bool-binary' else pick(['cos', 'euclidean'])),   # boolean arrays cannot be subtracted (explicit TypeError)
+                          alg=pick(['greedy', 'optimal']),
+                          ref=refk, rs=[seed, 18, i])); i += 1
     for r in range(n // 2):
         cases.append(dict(lane='global', K=int(rng.integers(1, 7)), F=int(pick([1, 3, 5, 9])), T=int(rng.integers(2, 30)), metric=pick(METRICS), alg=pick(['greedy', 'optimal']), rs=[seed, 19, i])); i += 1
     return cases
@@ -96,10 +99,14 @@ def run_matrix(case, R):
     K, lead = case['K'], tuple(case['lead'])
     if case['dtype'] == 'float':
         sm = rng.standard_normal((*lead, K, K)) * 10 ** rng.uniform(-2, 2)
+        if case['rs'][-1] % 4 == 0:
+            sm = 1000.0 + 0.01 * rng.uniform(size=(*lead, K, K))       # totals that differ only in the 6th significant digit
     elif case['dtype'] == 'int':
         sm = rng.integers(-50, 50, size=(*lead, K, K))
     else:
         sm = rng.integers(0, 3, size=(*lead, K, K)).astype(float)
+    if case['rs'][-1] % 3 == 0:
+        sm = np.ascontiguousarray(np.swapaxes(sm, -1, -2)).swapaxes(-1, -2) if case['rs'][-1] % 2 else np.asfortranarray(sm)
     d = check_optimal(R, sm, dict(K=K, lead=list(lead), dtype=case['dtype']))
     if d:
         R.mark_nontrivial('matrix', K, list(lead), case['dtype'])
@@ -108,6 +115,16 @@ def run_matrix(case, R):
 
 def reference(rng, kind, K, F, T):
     """reference mask whose rows are pairwise distinct after normalisation and non-zero in every bin."""
+    if kind == 'similar':
+        base = rng.uniform(0.3, 1.0, size=(1, F, T))
+        return base * (1 + 2e-3 * rng.uniform(-1, 1, size=(K, F, T))) * (1 + 0.01 * np.arange(K)[:, None, None])
+    if kind in ('int8-binary', 'bool-binary'):
+        for _ in range(100):
+            lab = rng.integers(0, K, size=(F, T))
+            ref = (lab[None] == np.arange(K)[:, None, None])
+            if ref.any(axis=-1).all():
+                return ref.astype(np.int8) if kind == 'int8-binary' else ref
+        return None
     for _ in range(100):
         if kind == 'onehot-ish':
             lab = rng.integers(0, K, size=(F, T))
